@@ -1,34 +1,41 @@
 """C27 — repeated policer cycles restore the required replicas, then stop."""
 import json
 import vlib
+from placerepl import repl_tie
 
 META = {
     "id": "C27",
     "engine": "place",
     "design_ref": "5/C27",
-    "coq_targets": ["Props/Properties_C27.vo", "Place/RoundsCheck.vo"],
+    "coq_targets": ["Props/Properties_C27.vo", "Place/RoundsCheck.vo", "Place/ReplCheck.vo"],
     "coq_files": ["Place/Policer.v", "Place/PolicerProofs.v", "Place/Rounds.v", "Place/RoundsProofs.v", "Place/RoundsCheck.v",
-                  "Props/Properties_C27.v"],
+                  "Place/Repl.v", "Place/ReplProofs.v", "Place/ReplCheck.v", "Props/Properties_C27.v"],
     "theorems": ["C27_converges", "C27_progress", "C27_never_empty", "C27_primary_never_drops", "C27_replicator_bounded",
-                 "C27_node_replication_bounded"],
+                 "C27_replicator_bounded_any", "C27_node_replication_bounded"],
     "technique": "Coq proof (closed form of the C26 policer model on a cluster environment, strictly decreasing measure = number of primary "
-                 "nodes missing the object, induction over rounds) + differential check: rounds of the real Policer/Replicator over a shared "
-                 "in-memory cluster replayed step by step on the model",
+                 "nodes missing the object, induction over rounds; induction over the target list for the replicator) + differential check: "
+                 "rounds of the real Policer/Replicator over a shared in-memory cluster (one or two REP rules with overlapping vectors) "
+                 "replayed step by step on the model; the real Replicator.HandleTask on directly given tasks of every kind",
     "level_text": "For every duplicate-free placement list, every REP R with 0 < R <= number of nodes, every non-empty initial holder set inside "
                   "the container and every order of the nodes inside each round (each node gets its turn): after R+1 rounds of the modelled "
                   "policer checks the holders are exactly the R primary nodes, every later check leaves the state unchanged and issues no "
                   "replication task; each holder's check strictly decreases the number of primaries missing the object; the holder set "
                   "never becomes empty; a primary holder never drops its copy; the replicator reports at most the requested number of "
-                  "successes and only nodes it sent the object to. The cluster model runs the C26 model of processObject (repaired code); the "
-                  "tie runs the real Policer.processObject + Replicator.HandleTask for every holder in R+2 rounds over a shared cluster and "
-                  "compares every step (tasks, reported successes, deletions) and the holder set after every round with the model.",
-    "level_note": "Trusted: Coq kernel + vm_compute; hand-written models Place/Policer.v and Place/Rounds.v (tied by differential replay on sampled "
-                  "clusters of 3-6 nodes, REP 1-3, random initial holders and random per-round orders); harness fakes; Python driver. partial: "
-                  "asynchronous timing between nodes is abstracted into rounds of sequential checks (any order inside a round is quantified, "
-                  "but checks of different nodes do not overlap in time); single REP rule, REGULAR objects, no maintenance, all nodes reachable "
-                  "and accepting; holders outside the container are not considered.",
-    "trusted_base": ["Coq 8.16.1 kernel, vm_compute", "models Place/Policer.v, Place/Rounds.v hand-written, tied by differential check",
-                     "harness/cmd/place, harness/hooks/pkg/services/{policer,replicator}/zz_verif_place_*.go, lib/vlib.py"],
+                  "successes and only nodes it sent the object to - for every kind of task (address only, or carrying the object with the "
+                  "local node among the targets: a successful local Put consumes one unit of the quantity) and any answers of the remote "
+                  "nodes. The cluster model runs the C26 model of processObject (repaired code) for any number of REP rules; the tie runs "
+                  "the real Policer.processObject + Replicator.HandleTask for every holder in (sum of copies numbers)+2 rounds over a shared "
+                  "cluster with one or two REP rules (overlapping vectors) and compares every step (tasks, reported successes, deletions) "
+                  "and the holder set after every round with the model, and runs the real HandleTask on ~2000 directly given tasks.",
+    "level_note": "Trusted: Coq kernel + vm_compute; hand-written models Place/Policer.v, Place/Rounds.v, Place/Repl.v (tied by differential "
+                  "replay on sampled clusters of 3-6 nodes, REP 1-3, one or two rules, random initial holders and random per-round orders; "
+                  "replicator: all target lists of <=3 remote nodes + the local node at any position x quantities 0..len+1 x task kinds); "
+                  "harness fakes; Python driver. partial: the convergence + quiescence THEOREMS cover a single REP rule; for two REP rules "
+                  "with overlapping vectors MULTI_NOTE; asynchronous timing between nodes is abstracted into rounds of sequential checks (any order "
+                  "inside a round is quantified, but checks of different nodes do not overlap in time); REGULAR objects, no maintenance, all "
+                  "nodes reachable and accepting; holders outside the container are not considered.",
+    "trusted_base": ["Coq 8.16.1 kernel, vm_compute", "models Place/Policer.v, Place/Rounds.v, Place/Repl.v hand-written, tied by differential check",
+                     "harness/cmd/place, harness/hooks/pkg/services/{policer,replicator}/zz_verif_place_*.go, lib/vlib.py, lib/placerepl.py"],
     "assumptions": ["stable network map: the placement list does not change between rounds and has no repeated node",
                     "every node is reachable, answers HEAD truthfully and accepts replicas",
                     "0 < R <= number of container nodes; all initial holders are container nodes, at least one holder",
@@ -40,8 +47,8 @@ def coq_case(c):
     def step(s):
         return "(%d, %s, %s, %s)" % (s["v"], vlib.coq_list(s["tasks"], lambda t: "(%d, %s)" % (t["q"], vlib.coq_list(t["nodes"]))),
                                      vlib.coq_list(s["succ"]), vlib.coq_list(s["dels"]))
-    return "(mkRC %s %d %s %s %s %s)" % (
-        vlib.coq_list(c["nodes"]), c["r"], vlib.coq_list(c["holds"]), vlib.coq_list(c["orders"], vlib.coq_list),
+    return "(mkRC %s %s %s %s %s)" % (
+        vlib.coq_list(list(zip(c["nn"], c["rep"])), lambda x: "(%s, %d)" % (vlib.coq_list(x[0]), x[1])), vlib.coq_list(c["holds"]), vlib.coq_list(c["orders"], vlib.coq_list),
         vlib.coq_list(c["rounds"], lambda r: vlib.coq_list(r, step)), vlib.coq_list(c["after"], vlib.coq_list))
 
 
@@ -67,7 +74,7 @@ def evaluate(ctx, cases):
 
 
 def strip(c):
-    return {k: c[k] for k in ("nodes", "r", "holds", "orders")}
+    return {k: c[k] for k in ("nn", "rep", "holds", "orders")}
 
 
 def rerun(ctx, binp, cases):
@@ -85,16 +92,17 @@ def hist(items, f):
 
 def run(ctx):
     ctx.prove()
-    model = ctx.model_ready(["Place/RoundsCheck.vo"])
+    model = ctx.model_ready(["Place/RoundsCheck.vo", "Place/ReplCheck.vo"])
     binp = ctx.go_build()
-    if ctx.replay:
-        rp = json.load(open(ctx.replay))
+    rp = json.load(open(ctx.replay)) if ctx.replay else None
+    if rp is not None:
         cases = rerun(ctx, binp, [v["case"] for v in rp.get("violations", []) if "case" in v])
     else:
         cases = ctx.run_json([binp, "rounds"])
     if not model:
         ctx.tie(False)
         return
+    repl_tie(ctx, binp, None if rp is None else [v["repl_case"] for v in rp.get("violations", []) if "repl_case" in v])
     res = evaluate(ctx, cases)
     if res is None:
         ctx.tie(False)
@@ -106,23 +114,39 @@ def run(ctx):
     for i in (sorted(bad_ref) + sorted(bad_model - bad_ref))[:6]:
         c = cases[i]
         ctx.violation({"case": strip(c), "impl_rounds": c["rounds"], "impl_holders_after_each_round": c["after"],
-                       "disagrees_with": "reference: holders after R+1 rounds are not exactly the primary nodes / replication continues / replicator over-reports"
-                       if i in bad_ref else "model Place/Rounds.v (node_result / node_step)",
+                       "disagrees_with": "reference: after (sum of copies numbers)+1 rounds a primary node of some rule lacks the object / the holder set still changes / replication or deletion continues / replicator over-reports"
+                       if i in bad_ref else "model Place/Rounds.v (mnode_result / mnode_step)",
                        "theorems": META["theorems"]})
     steps = [s for c in cases for r in c["rounds"] for s in r]
+
+    def prims(c):
+        return sorted({n for l, r in zip(c["nn"], c["rep"]) for n in l[:r]})
+
+    def overlap(c):
+        if len(c["nn"]) < 2:
+            return "one-rule"
+        a, b = set(c["nn"][0]), set(c["nn"][1])
+        return "two-rules/" + ("same-nodes" if a == b else "subset" if b < a else "other")
+
     ctx.cov.update({
         "evaluations": len(cases),
         "distinct_nontrivial": len({json.dumps(strip(c), sort_keys=True) for c in cases
-                                    if sorted(c["holds"]) != sorted(c["nodes"][:c["r"]])}),
-        "rule": "random clusters: 3-6 nodes in random placement order, REP 1-3, every node an initial holder with probability 1/3 (at least "
-                "one), R+2 rounds with an independent random order of the nodes each; non-trivial = the initial holders are not already "
-                "exactly the primaries; distinct by (list, R, holders, orders)",
+                                    if sorted(c["holds"]) != prims(c)}),
+        "rule": "random clusters: 3-6 nodes in random placement order, REP 1-3; in half of the cases a second rule REP 1-3 whose vector is "
+                "another random order of all or of a part of the same nodes (overlapping vectors); every node an initial holder with "
+                "probability 1/3 (at least one), (sum of copies numbers)+2 rounds with an independent random order of the nodes each; "
+                "fixed: two REP 1 rules over [1,2,3] / [2,3,1] from every non-empty initial distribution; non-trivial = the initial "
+                "holders are not already exactly the primaries; distinct by (vectors, copies numbers, holders, orders)",
         "samples": [cases[0], cases[len(cases) // 2]] if cases else [],
         "traces_validated_against_impl": len(cases),
         "policer_checks_executed": len(steps),
-        "hist_nodes": hist(cases, lambda c: len(c["nodes"])),
-        "hist_rep": hist(cases, lambda c: c["r"]),
+        "hist_nodes": hist(cases, lambda c: len({n for l in c["nn"] for n in l})),
+        "hist_rep": hist(cases, lambda c: "+".join(str(r) for r in c["rep"])),
+        "hist_rules": hist(cases, overlap),
+        "two_rule_cases_node_primary_of_later_rule_only": sum(
+            1 for c in cases if len(c["nn"]) > 1 and set(c["nn"][1][:c["rep"][1]]) - set(c["nn"][0][:c["rep"][0]])),
         "hist_initial_holders": hist(cases, lambda c: len(c["holds"])),
-        "hist_step_kind": hist(steps, lambda s: ("replicate" if s["tasks"] else "quiet") + ("+drop" if 1 in s["dels"] else "")),
-        "hist_rounds_to_converge": hist(cases, lambda c: next((k + 1 for k, a in enumerate(c["after"]) if a == sorted(c["nodes"][:c["r"]])), -1)),
+        "hist_step_kind": hist(steps, lambda s: ("replicate" if any(t["nodes"] for t in s["tasks"]) else
+                                                 "empty-task" if s["tasks"] else "quiet") + ("+drop" if 1 in s["dels"] else "")),
+        "hist_rounds_until_primaries_hold": hist(cases, lambda c: next((k + 1 for k, a in enumerate(c["after"]) if set(prims(c)) <= set(a)), -1)),
     })
